@@ -699,8 +699,9 @@ class HttpRequestParser(HttpParser[RawRequestMessage]):
                 # authority-form,
                 # https://datatracker.ietf.org/doc/html/rfc7230#section-5.3.3
                 url = URL.build(authority=path, encoded=True)
-                # the authority is split and validated lazily here, too
-                url.raw_host  # noqa: B018
+                # the authority is split, validated and IDNA-decoded lazily
+                # here, too
+                url.host  # noqa: B018
             elif path.startswith("/"):
                 # origin-form,
                 # https://datatracker.ietf.org/doc/html/rfc7230#section-5.3.1
@@ -724,10 +725,11 @@ class HttpRequestParser(HttpParser[RawRequestMessage]):
                 # absolute-form for proxy maybe,
                 # https://datatracker.ietf.org/doc/html/rfc7230#section-5.3.2
                 url = URL(path, encoded=True)
-                # yarl splits and validates the authority lazily: force it
-                # here so a bad host or port is refused now (400) instead of
-                # raising later, outside of any request handler.
-                url.raw_host  # noqa: B018
+                # yarl splits and validates the authority lazily, and decodes
+                # an IDNA host only when it is read: force both here so a bad
+                # host or port is refused now (400) instead of raising later,
+                # outside of any request handler.
+                url.host  # noqa: B018
                 if not url.absolute:
                     # authority-form is only allowed with CONNECT
                     # https://www.rfc-editor.org/info/rfc9112/#section-3.2.3-1
